@@ -25,6 +25,19 @@ class _Spy:
         CALLS.append("prop")
         return "SECRET-prop"
 
+    # what a library might be tempted to use an object for: formatting itself as a date, as a number, as a field
+    def strftime(self, fmt):
+        CALLS.append("strftime")
+        return "SECRET-strftime"
+
+    def isoformat(self, *a):
+        CALLS.append("isoformat")
+        return "SECRET-isoformat"
+
+    def __format__(self, spec):
+        CALLS.append("__format__")
+        return "SECRET-format"
+
     def __str__(self):
         return type(self).__name__.upper()
 
